@@ -775,7 +775,12 @@ func (tr *Tr) builtinOrConv(id *ast.Ident, call *ast.CallExpr, env *Env, k econt
 			return fmt.Sprintf("match make_list %s %s with\n| Some %s =>\n%s\n| None => %s\nend", paren(z.term), paren(n.term), name,
 				ind(ind(k(e, Val{term: name, typ: t}))), tr.panicOut(e, "site_make"))
 		}), true
-	case "panic", "copy", "new", "cap", "delete", "print", "println", "min", "max", "recover", "close", "complex", "real", "imag", "clear":
+	case "new":
+		if len(call.Args) == 1 && exprStr(call.Args[0]) == "big.Int" && env.scope["big"] == nil {
+			return k(env, Val{term: "0%Z", typ: tBigInt, cst: nil}), true
+		}
+		tr.fail(call, "new(%s) (only new(big.Int))", exprStr(call.Args[0]))
+	case "panic", "copy", "cap", "delete", "print", "println", "min", "max", "recover", "close", "complex", "real", "imag", "clear":
 		tr.fail(call, "builtin %s in an expression", id.Name)
 	}
 	if _, isFunc := tr.p.funcs[id.Name]; isFunc {
@@ -900,7 +905,20 @@ func (tr *Tr) libCall(pk, name string, call *ast.CallExpr, env *Env, k econt) st
 		// the arguments are evaluated (they may call methods); only a %w argument matters
 		return tr.evalList(call.Args[1:], env, func(e *Env, vs []Val) string {
 			if wrapIdx < 0 {
-				return k(e, Val{term: "Some EIllTyped", typ: tError})
+				// an error that reports another error (with %v, %s) keeps its class; any other constructed error is EIllTyped
+				n := 0
+				for i, v := range vs {
+					if v.typ != nil && v.typ.K == KError {
+						wrapIdx = i
+						n++
+					}
+				}
+				if n == 0 {
+					return k(e, Val{term: "Some EIllTyped", typ: tError})
+				}
+				if n > 1 {
+					tr.fail(call, "fmt.Errorf with several error arguments")
+				}
 			}
 			w := tr.use(vs[wrapIdx], call.Args[wrapIdx+1])
 			if w.typ.K != KError {
